@@ -105,6 +105,19 @@ def finite(mi) -> bool:
     return all(bool(jnp.all(jnp.isfinite(v))) for v in mi.values())
 
 
+def act(x, g):
+    """g acting on a multi-image *as a physical object*: pixels and tensors through the library's
+    times_group_element, and the per-axis boundary flags travelling with their axes (the library call leaves
+    is_torus untouched; for flags that are not all equal the symmetric problem is the one whose flags moved)."""
+    y = x.times_group_element(g)
+    flags = tuple(x.is_torus)
+    if len(set(flags)) > 1:
+        ga = np.abs(np.asarray(g))
+        new_flags = tuple(flags[int(np.argmax(ga[j]))] for j in range(x.D))
+        y = geom.MultiImage(dict(y.items()), x.D, new_flags)
+    return y
+
+
 def jitter(x, seed: int, rel: float = 1e-6):
     """x with every entry perturbed by a relative 1e-6 (about 8 float32 ulps) with random signs."""
     rs = np.random.RandomState(seed % (2**31 - 1))
@@ -130,8 +143,8 @@ def equivariance_defects(model, cfg, probes, ops):
         nf = noise_floor(model, x, base, 7919 + pi)
         bad = {}
         for gi, g in enumerate(ops):
-            lhs = _CALL(model, x.times_group_element(g))
-            rhs = base.times_group_element(g)
+            lhs = _CALL(model, act(x, g))
+            rhs = act(base, g)
             if not finite(lhs):
                 return None, "nonfinite", 0
             if set(lhs.keys()) != set(rhs.keys()):
